@@ -5,6 +5,9 @@ HERE = os.path.dirname(os.path.dirname(os.path.abspath(__file__)))
 BASE = json.load(open('/root/.vp/BASELINE.json'))
 
 CHECKS = {
+ 'C15': dict(cat='exploration', sec='3/C15', technique='runtime monitoring under a cooperative scheduler: the real ThreadPool with consumer and adopted worker threads serialised at every queue operation; forced completion permutations, random/PCT schedules, preemption-bounded exhaustive DFS; oracle on the yielded sequence',
+   text='The real ThreadPool.imap/map/starmap/starcall and module helpers run with n=1..6 items, pool sizes 1..4, failing items at chosen positions, both result modes; a deterministic scheduler owns every Queue.put/get/empty/join/task_done and a point inside each work item, so completion orders and queue interleavings are chosen, recorded and replayable. All n! completion orders (n<=5 quick, <=6 thorough) are forced; small configurations are enumerated by DFS up to a preemption bound (marked as exhaustive sub-spaces); the rest is random/PCT. Oracle: one result per input in input order, failures attached to their own index or re-raised with a correct prefix, termination (deadlock = no enabled thread).',
+   note='trusted: the scheduler (vlib/sched.py) and the instrumented queue.Queue subclass; code between queue operations is atomic in this mode. Worker threads left blocked after the call returned are counted, not judged.'),
  'C03': dict(cat='exploration', sec='3/C03', technique='runtime monitoring: return values of the public grid API judged by an exact rational-arithmetic reference model over generated grids, points, rectangles and resolutions',
    text='Generated grids (5 SRS, 6 bbox classes, 6 tile sizes, factor-2/sqrt2/free/explicit/single/min_res ladders, both origins) are probed through TileGrid.tile, tile_bbox, flip_tile_coord, supports_access_with_origin, get_affected_level_tiles, closest_level and get_affected_bbox_and_level; an independent Fraction model decides containment, shared edges, flip involution and rectangle preservation, required/forbidden/None/row-major tile lists, reported bbox and the level rule. Inputs concentrate on tile edges, +-1 ulp, the 1/10 px inset and stretch thresholds. The input space is continuous, so exploration with edge-directed generation is the attainable level.',
    note='trusted: fractions.Fraction arithmetic and the 60-line model; tolerance tau=res/1000; the documented 0.1 px inset band and comparisons within 1e-12 of a stretch threshold are don\'t-care. threshold_res not generated.'),
